@@ -394,8 +394,92 @@ func openFilesUnder(dir string) []string {
 			out = append(out, strings.TrimPrefix(t, dir))
 		}
 	}
+	// memory mappings outlive their descriptor (and a descriptor can be reaped by a finalizer)
+	if maps, err := os.ReadFile("/proc/self/maps"); err == nil {
+		for _, l := range strings.Split(string(maps), "\n") {
+			if i := strings.Index(l, dir); i >= 0 {
+				out = append(out, "mmap:"+strings.TrimPrefix(l[i:], dir))
+			}
+		}
+	}
 	sort.Strings(out)
 	return out
+}
+
+// bodyEmptiedWhilePersisted: a segment leaves the root (a delete-only batch obsoletes its only
+// document) after the persister took its snapshot and before the freshly written file is swapped
+// in; the file was written and opened for nothing. It must be closed and must not stay behind.
+func bodyEmptiedWhilePersisted(k cfg) func(c *drv.Ctx) {
+	return func(c *drv.Ctx) {
+		base := c.Dir + "/idx"
+		store := filepath.Join(base, "store")
+		var idx bleve.Index
+		vrt.Free(func() {
+			var err error
+			idx, err = bleve.NewUsing(base, bleve.NewIndexMapping(), scorch.Name, scorch.Name, map[string]interface{}{
+				"numSnapshotsToKeep": k.keep, "unsafe_batch": true,
+			})
+			if err != nil {
+				panic(err)
+			}
+			vrt.WaitIdle()
+		})
+		put := func(id string, j int) {
+			b := idx.NewBatch()
+			b.Index(id, map[string]interface{}{"seq": strconv.Itoa(j)})
+			if err := idx.Batch(b); err != nil {
+				c.Fail("error:batch", "Batch: %v", err)
+			}
+		}
+		vrt.Free(func() {
+			put("keep", 1)
+			vrt.WaitIdle() // a segment file exists and is part of the state
+		})
+		start := make(chan int, 1)
+		var wg vrt.WaitGroup
+		wg.Add(1)
+		vrt.Go(func() { // created last: in the default schedule the persister finishes first; a deviation lets the delete cut in
+			defer wg.Done()
+			vrt.Recv(start)
+			b := idx.NewBatch()
+			b.Delete("x") // delete-only: a handful of scheduling steps
+			if err := idx.Batch(b); err != nil {
+				c.Fail("error:batch", "Batch: %v", err)
+			}
+		})
+		put("x", 2) // unsafe: returns once introduced; the persister starts writing its segment
+		vrt.Send(start, 1)
+		wg.Wait()
+		vrt.WaitIdle()
+		put("y", 3)
+		vrt.WaitIdle()
+		for round := 0; round < 2; round++ {
+			idx.SetInternal([]byte("tick"), []byte(strconv.Itoa(round)))
+			vrt.WaitIdle()
+		}
+		if st, err := bx.Scorch(idx).VerifFileState(); err == nil {
+			var dl []string
+			for f := range zapFiles(store) {
+				dl = append(dl, f)
+			}
+			sort.Strings(dl)
+			c.Observe(fmt.Sprintf("z%d", len(dl)))
+			if strings.Join(dl, ",") != strings.Join(st.BoltFiles, ",") {
+				c.Fail("stray-files-at-quiescence", "at quiescence the directory holds zap files %v, recorded snapshots name %v", dl, st.BoltFiles)
+			}
+		}
+		vrt.Free(func() {
+			if n, _ := idx.DocCount(); n != 2 {
+				c.Fail("wrong-content", "DocCount %d, want 2 (keep, y)", n)
+			}
+			if err := idx.Close(); err != nil {
+				c.Fail("error:close", "Close: %v", err)
+			}
+			if open := openFilesUnder(base); len(open) > 0 {
+				c.Fail("fd-left-open-after-close", "files of the index still open / mapped after Close returned (a segment was emptied while it was being persisted): %v", open)
+			}
+		})
+	}
 }
 
 // bodyCloseDuringPersist: Close arrives while the persister is in the middle of persisting a newer
@@ -609,6 +693,7 @@ func Scenarios() []drv.Scenario {
 		mk(cfg{name: "unsafe-writer+reader+two-overlapping-copies-keep1", keep: 1, batches: 4, copy: true, copies: 2, unsafe: true}, nil, d2),
 		{Name: "slow-overlapping-backups-unsafe-keep1", Body: bodySlow(cfg{keep: 1, batches: 3}), Quick: d1r, Thorough: d2, Class: "files", MaxSteps: 1500000},
 		{Name: "close-arrives-during-persist-unsafe", Body: bodyCloseDuringPersist(cfg{keep: 1, batches: 3}), Quick: d1r, Thorough: d2, Class: "files", MaxSteps: 1500000},
+		{Name: "segment-emptied-while-being-persisted-unsafe", Doc: "an unsafe batch's only document is deleted by a low-priority delete-only batch while the persister is writing its segment file; at quiescence and after Close nothing of that file may remain (directory, descriptors, mappings)", Body: bodyEmptiedWhilePersisted(cfg{keep: 1}), Quick: d1r, Thorough: d2, Class: "files", MaxSteps: 1500000},
 		{Name: "batch-introduced-between-merge-and-purge-keep1", Body: bodyPurgeGate(cfg{keep: 1}), Quick: d1r, Thorough: d2, Class: "files", MaxSteps: 1500000},
 		mk(cfg{name: "writer+reader-keep3", keep: 3, batches: 4}, nil, d1),
 		mk(cfg{name: "writer+reader-keep2-every-step", keep: 2, batches: 3, allStep: true}, nil, d1),
